@@ -18,6 +18,7 @@ import (
 
 // HarnessSpec registers one harness function of one property.
 type HarnessSpec struct {
+	NoisyNative bool // native runs depend on goroutine scheduling, real time or allocator state: a native-only failure on a witness path stays INCONCLUSIVE
 	Name    string // harness function name
 	Mod     string // module dir relative to /repo ("" or "publish")
 	Pkg     string // package pattern relative to module ("." or "./dns")
